@@ -91,7 +91,7 @@ def confirm(prop, k):
         print(rec.get("demo_without_patch", ""))
         print(rec.get("suite_unexpected_failures_with_patch"))
         return 1
-    dst = "/verif/seeded/%s-m%s" % (prop, k)
+    dst = "/verif/seeded/%s" % (AS or "%s-m%s" % (prop, k))
     os.makedirs(dst, exist_ok=True)
     shutil.copy(os.path.join(src, "patch.diff"), dst)
     for f in demo_files:
@@ -130,7 +130,12 @@ def run(sid, props, tier):
     json.dump(meta, open(os.path.join(d, "meta.json"), "w"), indent=1)
 
 
+AS = None
 if __name__ == "__main__":
+    if "--as" in sys.argv:
+        i = sys.argv.index("--as")
+        AS = sys.argv[i + 1]
+        del sys.argv[i:i + 2]
     if sys.argv[1] == "confirm":
         sys.exit(confirm(sys.argv[2], sys.argv[3]))
     elif sys.argv[1] == "run":
